@@ -73,8 +73,8 @@ func NewNormalDistribution(mu Vector, sigma Matrix) (*NormalDistribution, error)
   h.Mul(ConstFloat64(-0.5), t1.Add(c, t1.Log(t1.Abs(sigmaDet))))
 
   result := NormalDistribution{
-    Mu      : mu,
-    Sigma   : sigma,
+    Mu      : mu   .CloneVector(),
+    Sigma   : sigma.CloneMatrix(),
     SigmaInv: sigmaInv,
     SigmaDet: sigmaDet,
     logH    : h,
